@@ -5,7 +5,7 @@ id=$1; shift
 sfx=${MUT_SUFFIX:-}
 repo=/tmp/mutrepo$sfx
 scratch=/tmp/mutscratch$sfx
-checks=${@:-$id}
+checks=${@:-$(echo $id | cut -c1-3)}
 p=/verif/seeded/$id/patch.diff
 [ -f $p ] || p=/tmp/mut_$id/out/patch.diff
 res=/verif/out/tmp/mutant_$id.txt
